@@ -329,6 +329,22 @@ Theorem C14_golden_vectorised_loop :
 Proof. exact golden_vector. Qed.
 Print Assumptions C14_golden_vectorised_loop.
 
+(** bisect, root exactly ON an end point of the initial bracket (f(a0) = 0 or f(b0) = 0; accepted by
+    range_check), every n, no continuity: the update conditions [sign(fa) sign(fc) == 1 or fc == 0] never move
+    an end point whose f-value is 0 (unless the midpoint is itself an exact root and the bracket collapses on
+    it), so that end point is still an end point after n passes, and the returned point is an EXACT root inside
+    the initial bracket.  (A "simplified" condition sign(fa) sign(fc) >= 0 violates exactly this.) *)
+Theorem C14_bisect_endpoint_root :
+  forall (f : R -> R) (n : nat) (a0 b0 : R),
+       (a0 <= b0)%R ->
+       f a0 = 0%R \/ f b0 = 0%R ->
+       let ab := bis_iter f n (a0, b0) in
+       let x := bis_pick f ab in
+       (f a0 = 0%R -> fst ab = a0 \/ fst ab = snd ab /\ f (fst ab) = 0%R) /\
+       (f b0 = 0%R -> snd ab = b0 \/ fst ab = snd ab /\ f (fst ab) = 0%R) /\ f x = 0%R /\ (a0 <= x <= b0)%R.
+Proof. exact bisect_endpoint_root. Qed.
+Print Assumptions C14_bisect_endpoint_root.
+
 (** ------------------------------------------------------------------ non-vacuity *)
 Local Open Scope R_scope.
 
@@ -409,3 +425,8 @@ Theorem C14_gen_cg_loop :
     C14_CG.cg_loop_gen A b x0 tol atol maxiter M = st_tuple (cg_model A M tol atol maxiter b x0).
 Proof. exact (@cg_gen_is_model). Qed.
 Print Assumptions C14_gen_cg_loop.
+
+(** end-point root: f(x) = x on [0, 4] (root on the left end), f(x) = 4 - x (root on the right end) *)
+Example C14_bisect_endpoint_example :
+  (fun x : R => x) 0 = 0 /\ (fun x : R => 4 - x) 4 = 0 /\ 0 <= 4.
+Proof. repeat split; lra. Qed.
